@@ -35,6 +35,8 @@ fn main() {
             "C03" => vh::c03::replay(&ctx, &w),
             "C05" => vh::c05::replay(&ctx, &w),
             "C06" => vh::c06::replay(&ctx, &w),
+            "C07" => vh::c07::replay(&ctx, &w),
+            "C17" => vh::c17::replay(&ctx, &w),
             _ => {
                 eprintln!("no replay for {}", id);
                 std::process::exit(3);
@@ -48,6 +50,8 @@ fn main() {
             "C03" => vh::c03::main(&ctx),
             "C05" => vh::c05::main(&ctx),
             "C06" => vh::c06::main(&ctx),
+            "C07" => vh::c07::main(&ctx),
+            "C17" => vh::c17::main(&ctx),
             _ => {
                 eprintln!("unknown property {}", id);
                 3
